@@ -78,7 +78,7 @@ class CFG:
         self.raise_exit = self._new("raise")  # exception leaves the function
         self.fallthrough_preds: set[int] = set()  # nodes that reach exit by falling off the end
         self.if_true: dict[int, set[int]] = {}  # test node -> entry nodes of the true branch
-        self.if_false: dict[int, set[int]] = {}  # (empty when there is no else: falls to the join)
+        self.if_false: dict[int, set[int]] = {}  # entry nodes of the false branch (a synthetic join node when there is no else)
         self.if_stmt: dict[int, ast.If] = {}
         self.return_nodes: list[int] = []
         ctx = _Ctx(exc=[("node", self.raise_exit.id)])
@@ -172,7 +172,13 @@ class CFG:
             mid = {y for y, k in self.succ[t.id] if k == "n"}
             self.if_true[t.id] = mid - before
             self.if_stmt[t.id] = st
-            b = self._block(st.orelse, {t.id}, ctx) if st.orelse else {t.id}
+            if st.orelse:
+                b = self._block(st.orelse, {t.id}, ctx)
+            else:
+                # an explicit node for the empty else branch, so that "the test was false" is a node a path passes through
+                j = self._new("join", None, label="if-false")
+                self._edge(t.id, j.id, "n")
+                b = {j.id}
             self.if_false[t.id] = {y for y, k in self.succ[t.id] if k == "n"} - mid
             return a | b
         if isinstance(st, (ast.For, ast.AsyncFor)):
@@ -211,6 +217,16 @@ class CFG:
         if isinstance(st, (ast.With, ast.AsyncWith)):
             w = self._new("with", st)
             self._connect(preds, w.id)
+            sup = [i.context_expr for i in st.items if isinstance(i.context_expr, ast.Call)
+                   and ast.unparse(i.context_expr.func).split(".")[-1] == "suppress"]
+            if sup and len(st.items) == 1:
+                # `with suppress(E, ...):` is `try: body / except (E, ...): pass`; constructing the manager from class names cannot fail
+                dispatch = self._new("join", st, label="suppress-dispatch")
+                body_out = self._block(st.body, {w.id}, ctx.push_exc(("try", dispatch.id)))
+                names = {a.attr if isinstance(a, ast.Attribute) else getattr(a, "id", None) for a in sup[0].args}
+                if not (names & set(CATCH_ALL)):
+                    self._route_exc({dispatch.id}, ctx, len(ctx.exc) - 1, kind="e")
+                return set(body_out) | {dispatch.id}
             if any(expr_may_raise(i.context_expr, self.pure) for i in st.items):
                 self._exc_edge(w.id, ctx)
             return self._block(st.body, {w.id}, ctx)
